@@ -1,13 +1,15 @@
 #!/bin/bash
 cd /verif
+R=${EVAL_REPO:-/repo}
+export KV_REPO=$R
 export GOFLAGS=-mod=mod GOPROXY=off GOSUMDB=off GOTOOLCHAIN=local
 d=$1; shift
 name=$(basename $d)
-git -C /repo apply $d/patch.diff || { echo "$name: patch does not apply"; exit 1; }
-(cd /repo && go build ./... && go test -vet=off -count=1 ./... > /tmp/benign_$name.suite 2>&1); echo "$name suite exit=$?"
+git -C $R apply $d/patch.diff || { echo "$name: patch does not apply"; exit 1; }
+(cd $R && go build ./... && go test -vet=off -count=1 ./... > /tmp/benign_$name.suite 2>&1); echo "$name suite exit=$?"
 for id in "$@"; do
   KV_OUT=/tmp/kvo_benign timeout 2400 ./check $id quick > /tmp/benign_$name.$id.log 2>&1; rc=$?
   echo "$name check $id exit=$rc $(grep -c '^VIOLATION' /tmp/benign_$name.$id.log) viol; $(grep -m2 'INCONCLUSIVE\|^  Harness' /tmp/benign_$name.$id.log | cut -c1-260 | tr '\n' ' ')"
 done
-git -C /repo checkout -- .
-git -C /repo clean -fdq
+git -C $R checkout -- .
+git -C $R clean -fdq
